@@ -17,9 +17,9 @@ func checks() map[string]CheckDef {
 	add(CheckDef{
 		ID: "C19", Level: "proof",
 		Runs: []HRun{
-			{Pkg: "internal/zzverif/c19", Func: "HarnessLog2", Labels: []string{"C19/log2-floor"}},
-			{Pkg: "internal/zzverif/c19", Func: "HarnessCompact", Labels: []string{"C19/compact-to-big", "C19/compact-sign"}, Unwind: 600},
-			{Pkg: "internal/zzverif/c19", Func: "HarnessWork", Labels: []string{"C19/work", "C19/work-nonneg"}, Unwind: 600},
+			{Pkg: "internal/zzverif/c19", Func: "HarnessLog2", Labels: []string{"C19/log2-floor"}, Solver: "z3"},
+			{Pkg: "internal/zzverif/c19", Func: "HarnessCompact", Labels: []string{"C19/compact-to-big", "C19/compact-sign"}, Unwind: 600, Solver: "z3"},
+			{Pkg: "internal/zzverif/c19", Func: "HarnessWork", Labels: []string{"C19/work", "C19/work-nonneg"}, Unwind: 600, Solver: "z3"},
 		},
 		Bounds:  []string{"none: bits and n range over all 2^32 values; the exponent byte is case-split into its 256 values, each case decided for all 2^24 mantissa/sign values"},
 		Outside: []string{"monotonicity of work in the target is a consequence of the formula and is not re-proved", "math/big itself: Add/Mul/Neg/Lsh/Div/Quo/Cmp/Sign are modelled as exact integer arithmetic (Lsh by a constant = multiplication by 2^k, Div = Euclidean division)"},
@@ -61,8 +61,10 @@ func checks() map[string]CheckDef {
 		Runs: []HRun{
 			{Pkg: "internal/zzverif/c08", Func: "HarnessPage", Quick: [][]int64{{2}, {3}}, Thorough: [][]int64{{4}, {5}, {6}},
 				Labels: []string{"C08/ok-iff-key-empty-or-longest", "C08/page-length", "C08/ascending-consecutive", "C08/only-longest-chain-rows", "C08/last-key", "C08/unknown-key-404", "C08/non-longest-key-409"}},
+			{Pkg: "internal/zzverif/c08", Func: "HarnessPageAfterAdd", Quick: [][]int64{{2}}, Thorough: [][]int64{{3}, {4}},
+				Labels: []string{"C08/ok-iff-key-empty-or-longest", "C08/page-length", "C08/ascending-consecutive", "C08/last-key"}},
 		},
-		Bounds:  []string{"arbitrary INV-H store of k rows with pairwise distinct merkle roots (quick k<=3, thorough k<=6); page size any int >= 0; key any string"},
+		Bounds:  []string{"arbitrary INV-H store of k rows with pairwise distinct merkle roots (quick k<=3, thorough k<=6); page size any int >= 0; key any string", "walk interleaved with ingestion: page request, one arbitrary Add (incl. reorganisations), page request with an arbitrary (possibly identical) key, from stores of k rows (quick k=2, thorough k<=4)"},
 		Outside: []string{"the walk over several pages follows from the page lemma by induction on pages (argument, not a solver result)", "parsing of batchSize in the handler (C16)", "PostgreSQL"},
 		Stubs:   []string{"zerolog calls have no effect", "sqlx over the sqlm model"},
 	})
